@@ -518,6 +518,7 @@ def run_case(case):
         if p["right"] != "nan":
             kw["right"] = p["right"]
         labs = ds.axes[d].values.tolist()
+        new = core.snap_to_nodes(new, labs)
         if any(x < min(labs) or x > max(labs) for x in new):
             cl.add("interp:outside")
         if op == "interp_axis":
